@@ -66,6 +66,9 @@ def check(case):
     if kind == "err":
         if exp is not None:
             return [f"consistent-document-refused: read_pil raised {out}"]
+        if out in ("NameError", "TypeError", "AttributeError", "IndexError", "KeyError", "UnboundLocalError",
+                   "ValueError", "ZeroDivisionError", "OverflowError"):
+            return [f"interpreter-fault: read_pil raised {out} (C14_reader_no_fault / C16)"]
         return []
     d = describe(out)
     if exp is not None:
@@ -175,7 +178,7 @@ def check(case):
         held = None
     # ignore: the read with `ignore` is the read of the document without those statements
     if stmts:
-        for ig in ([ignore] if ignore else [[k] for k in KINDS]):
+        for ig in ([ignore] if ignore else [[k] for k in case.get("ignore_kinds", KINDS)]):
             if not any(tag in ig for tag, _ in stmts) and not ignore:
                 continue
             fresh()
